@@ -29,7 +29,7 @@ def cfg_space(tier):
        cbs |-> <<[t |-> "rec"]>>, vals |-> <<>>, vars |-> <<>>] :
        ty \\in {"complex", "density"}, s \\in 1..2, e \\in 1..%d, pb \\in {2, 3}, ngb \\in {0, 1}, es \\in BOOLEAN }''' % (
         2 if tier == "quick" else 3)
-    return pos + " \\cup " + other
+    return [pos, other]
 
 
 def random_cfg(rng):
